@@ -733,11 +733,16 @@ inline Res impl(const Decl& D, const std::vector<std::string>& av, const Env& en
 }
 
 // the other entry point: parse(std::vector<user_input>), the inputs built from the strings by the checking constructor
+inline Res run_on_vector(nitro::options::parser& p, const Decl& D, const std::vector<std::string>& av);
 inline Res impl_vector_entry(const Decl& D, const std::vector<std::string>& av, const Env& env)
 {
     apply_env(D, env);
     nitro::options::parser p;
     build(p, D);
+    return run_on_vector(p, D, av);
+}
+inline Res run_on_vector(nitro::options::parser& p, const Decl& D, const std::vector<std::string>& av)
+{
     Res r;
     try
     {
